@@ -5,6 +5,7 @@ import (
 	"errors"
 	"fmt"
 	"io"
+	"net/http"
 	"os"
 	"strings"
 	"sync"
@@ -379,6 +380,35 @@ func c14Run(run *ev.Run, srv *svc.Server, c c14Case) {
 	defer srv.Reg.Drop(call)
 	cs := srv.Clients(c.http2, svc.ProtoOpts(c.proto, "proto")...)
 	defer cs.Tap.Forget(call.ID)
+	jitter := "none"
+	if len(c.inject) == 0 {
+		// two thirds of the un-injected cases run under a seeded schedule of
+		// small delays at the HTTP boundary (request-body reads by the transport,
+		// response-body reads by the library): the stream model must hold under
+		// any of them
+		r := run.Rand(key + "/jitter")
+		if prof := r.Intn(3); prof > 0 {
+			pick := func() time.Duration {
+				return []time.Duration{0, 0, 0, time.Millisecond, 5 * time.Millisecond, 20 * time.Millisecond}[r.Intn(6)]
+			}
+			hc, base, tap := srv.HTTPClient(c.http2)
+			jt := jitterTransport{next: hc.Transport}
+			for k := 0; k < 8; k++ {
+				var a, b time.Duration
+				if prof == 1 {
+					a = pick()
+				} else {
+					b = pick()
+				}
+				jt.reqReads = append(jt.reqReads, a)
+				jt.resReads = append(jt.resReads, b)
+			}
+			cs = svc.NewClientSet(&http.Client{Transport: jt}, base, svc.ProtoOpts(c.proto, "proto")...)
+			cs.Tap = tap
+			jitter = []string{"", "request-reads", "response-reads"}[prof]
+			run.Count("cases.with_boundary_jitter", 1)
+		}
+	}
 	ctx, cancel := context.WithCancel(context.Background())
 	sd := &scripted{cs: cs, kind: c.kind, callID: call.ID, ctx: ctx, cancel: cancel, timeout: 15 * time.Second, handlerDone: call.Log.Finished}
 	cr := sd.run(c.client.ops)
@@ -389,7 +419,7 @@ func c14Run(run *ev.Run, srv *svc.Server, c c14Case) {
 	}
 	run.Eval(fmt.Sprintf("h2=%v|%s|%s|%s|%s|%s", c.http2, c.proto, c.kind, c.client.name, c.handler.name, inj))
 	ex := cs.Tap.Get(call.ID)
-	detail := map[string]any{"case": key, "ops": describeOps(cr), "client_received": gen.DescribeSeq(cr.Received)}
+	detail := map[string]any{"case": key, "ops": describeOps(cr), "client_received": gen.DescribeSeq(cr.Received), "boundary_jitter": jitter}
 	fail := func(suffix, what string) {
 		hl := call.Log
 		detail["handler_received"] = gen.DescribeSeq(hl.Received)
